@@ -44,6 +44,16 @@ Theorem C19_pq_progress : forall s c,
       (Q.q_wpark s > 0 -> Q.q_wclose s' = S (Q.q_wclose s) /\ Q.q_wpark s' = pred (Q.q_wpark s)).
 Proof. exact QP.progress. Qed.
 
+(** The sender goroutine running alone, from wherever it is in its loop (idle, between polls,
+    parked at the wait, woken, about to signal drain): two iterations of its loop hand out the
+    whole queue; no timer, heartbeat or further packet is needed. *)
+Theorem C19_pq_sender_loop_delivers : forall s c,
+  Q.qreachable s -> Q.q_q s <> [] -> Q.q_nsig s = 0 ->
+  (forall c', c' <> c -> Q.q_pc s c' <> Q.QWoke) ->
+  let s' := exec Q.qstep (QP.sender_round c ++ QP.sender_round c) s in
+  Q.q_q s' = [] /\ Q.qdelivered (Q.q_log s') = Q.qdelivered (Q.q_log s) ++ Q.q_q s.
+Proof. exact QP.sender_loop_delivers. Qed.
+
 (** A poll that starts while packets are queued returns them in its first step. *)
 Theorem C19_pq_arriving_poll_returns_queue : forall s c s',
   Q.q_q s <> [] -> Q.qstep (Q.QStart c) s = Some s' ->
